@@ -33,6 +33,12 @@ func (a *AuditLogIngester) Ingest(ctx context.Context) error {
 }
 
 func (a *AuditLogIngester) Process(ctx context.Context, line string) error {
-	a.AuditLogChan <- line
-	return nil
+	// The consumer of AuditLogChan stops when the context is cancelled.
+	// Do not wait for room in the channel for ever in that case.
+	select {
+	case a.AuditLogChan <- line:
+		return nil
+	case <-ctx.Done():
+		return ctx.Err()
+	}
 }
